@@ -203,11 +203,18 @@ def inPlaceIdxOf (op : String) : List Nat :=
   ((RtenVerif.Generated.InPlaceOps.inPlaceIdx.find? (fun p => p.1 == op)).map (·.2)).getD []
 
 /-- **E0 (machine-checked side condition of E2).** Every operator flagged commutative, and every
-binary element-wise operator with an in-place path, declares operand 0 — and only operand 0 —
-as its in-place input (decided on the table extracted from src/ops by the translator). -/
+binary element-wise operator with an in-place path, declares exactly operand 0 as its in-place
+input, or none at all (decided on the table extracted from src/ops by the translator). -/
 theorem c13_binary_ops_in_place_operand_zero :
     ∀ op ∈ RtenVerif.Generated.InPlaceOps.commutativeOps ++ ["Sub", "Div", "Pow"],
-      ∀ i ∈ inPlaceIdxOf op, i = 0 := by decide
+      inPlaceIdxOf op = [0] ∨ inPlaceIdxOf op = [] := by decide
+
+theorem mem_idx_zero {op : String} (h : inPlaceIdxOf op = [0] ∨ inPlaceIdxOf op = []) :
+    ∀ i ∈ inPlaceIdxOf op, i = 0 := by
+  intro i hi
+  rcases h with h | h <;> rw [h] at hi
+  · simpa using hi
+  · cases hi
 
 /-- Non-vacuity: the table has the entries (and E0 would fail for an operator like `Attention`). -/
 example : inPlaceIdxOf "Add" = [0] ∧ inPlaceIdxOf "Sub" = [0] ∧ inPlaceIdxOf "And" = [] ∧
@@ -222,7 +229,7 @@ theorem c13_graph_exec_flagged_ops :
         graphExec f (inPlaceIdxOf op) true a b ownA ownB shared = binop f a b := by
   intro op hop f hf a b ownA ownB shared ha hb
   exact c13_graph_exec_eq_run f _ true
-    (c13_binary_ops_in_place_operand_zero op (List.mem_append_left _ hop))
+    (mem_idx_zero (c13_binary_ops_in_place_operand_zero op (List.mem_append_left _ hop)))
     (fun _ => c13_flagged_commutative_ops_commute op hop f hf) a b ownA ownB shared ha hb
 
 /-- The swap really happens (non-vacuity of the second branch): `Add`-like node, larger owned
